@@ -490,6 +490,19 @@ class Fn:
                 if td[0] != 'ptr' or td[1][0] == 'void':
                     raise Unsupported('%s with an untyped destination' % name)
                 cnt = self.cells_of_bytes(self.rv(args[2]), td[1])
+                if name == 'memset' and td[1][0] == 'int' and INT_BYTES[td[1][1]] > 1:
+                    # an array of multi-byte integers: a cell is one integer, so it gets the value the repeated fill byte spells
+                    # in that type (memset(int *, 0xff, n): -1).  Only for a constant fill byte; 0 stays the plain BMemset
+                    c = args[1]
+                    while c['kind'] in ('ImplicitCastExpr', 'ParenExpr', 'ConstantExpr'):
+                        c = c['inner'][0]
+                    if c['kind'] not in ('IntegerLiteral', 'CharacterLiteral'):
+                        raise Unsupported('memset on an integer array with a fill byte that is not a literal')
+                    byte = int(c['value']) & 255
+                    if byte:
+                        k = INT_BYTES[td[1][1]]
+                        v = int.from_bytes(bytes([byte]) * k, 'little', signed=td[1][1].startswith('I'))
+                        return '(EBuiltin BMemsetI [%s; (EConst %s); %s])' % (self.rv(args[0]), Z(v), cnt)
                 b = {'memcpy': 'BMemcpy', 'memmove': 'BMemmove', 'memset': 'BMemset'}[name]
                 return '(EBuiltin %s [%s; %s; %s])' % (b, self.rv(args[0]), self.rv(args[1]), cnt)
             if name == 'malloc':
